@@ -49,18 +49,19 @@ def r1_header(ctx, res):
         if rh.key not in reach:
             res.find(key, lmf.loc(f.node), f'lmf.{fname} no longer goes through _read_header: is_lmf() and load() can disagree on which '
                                            f'files are WN-LMF')
-    il = ctx.repo.func('lmf', 'is_lmf')
+    from ..speccheck import view
+    iv = view(ctx, 'lmf', 'is_lmf')
     key = 'is_lmf-false-on-LMFError'
-    tries = [n for n in walk_no_nested(il.node) if isinstance(n, ast.Try)]
-    res.inst(key, lmf.loc(il.node), f'{[norm(h.type) for t in tries for h in t.handlers if h.type]}')
-    ok = len(tries) == 1 and len(tries[0].handlers) == 1 and tries[0].handlers[0].type is not None \
-        and norm(tries[0].handlers[0].type) == 'LMFError' and norm(tries[0].handlers[0].body[-1]) == 'return False' \
-        and any('_read_header' in norm(s) for s in tries[0].body)
-    if not ok:
-        res.find(key, lmf.loc(il.node), 'is_lmf() is no longer "False exactly when _read_header raises LMFError"')
-    rets = [norm(r.value) for r in walk_no_nested(il.node) if isinstance(r, ast.Return) and r.value is not None]
-    if sorted(rets) != ['False', 'False', 'True']:
-        res.find(key + ':returns', lmf.loc(il.node), f'is_lmf() returns {sorted(rets)}')
+    res.inst(key, iv.loc(), f'{iv.describe(("return", "call"))[:4]}')
+    rets = [r for r in iv.rows if r[0] == 'return']
+    false_on_err = [r for r in rets if r[1] == 'False' and '<except LMFError>' in r[2]]
+    other_exc = [r for r in iv.rows if any(g.startswith('<except ') and g != '<except LMFError>' for g in r[2])]
+    trues = [r for r in rets if r[1] == 'True']
+    calls = [r for r in iv.rows if r[0] == 'call' and r[1].startswith('_read_header(')]
+    if len(false_on_err) != 1 or other_exc or len(trues) != 1 or not calls or any('<except' in g for g in trues[0][2]):
+        res.find(key, iv.loc(), f'is_lmf() is no longer "False exactly when _read_header raises LMFError": {iv.describe(("return", "call"))}')
+    if sorted(r[1] for r in rets) != ['False', 'False', 'True']:
+        res.find(key + ':returns', iv.loc(), f'is_lmf() returns {sorted(r[1] for r in rets)}')
     # constants
     sup, schemas, doctypes, doctype, xmldecl = (_fold(ctx, n) for n in ('SUPPORTED_VERSIONS', '_SCHEMAS', '_DOCTYPES', '_DOCTYPE', '_XMLDECL'))
     key = 'doctype-table'
@@ -71,59 +72,66 @@ def r1_header(ctx, res):
     for v, s in schemas.items():
         if doctypes.get(doctype.format(schema=s)) != v:
             res.find(key + f':{v}', lmf.relpath, f'the DOCTYPE line of version {v} (as dump() prints it) is not accepted as version {v}')
-    src = Frag(rh.node)
+    hv = view(ctx, 'lmf', '_read_header')
     key = 'read-header-shape'
-    res.inst(key, lmf.loc(rh.node), 'compares the declaration with _XMLDECL and looks the DOCTYPE up in _DOCTYPES')
-    need = ['if xmldecl != _XMLDECL', 'if doctype_decoded not in _DOCTYPES', 'return _DOCTYPES[doctype_decoded]']
-    raises = [n for n in walk_no_nested(rh.node) if isinstance(n, ast.Raise) and 'LMFError' in norm(n)]
-    if not all(nd in src for nd in need) or len(raises) < 2:
-        res.find(key, lmf.loc(rh.node), '_read_header no longer rejects a missing/other XML declaration and an unknown DOCTYPE with LMFError')
-    qs = ctx.repo.func('lmf', '_quick_scan')
+    res.inst(key, hv.loc(), 'compares the declaration with _XMLDECL and looks the DOCTYPE up in _DOCTYPES')
+    raises = [r for r in hv.rows if r[0] == 'raise' and r[1].startswith('LMFError(')]
+    r_decl = [r for r in raises if any(g.endswith('!= _XMLDECL') for g in r[2])]
+    r_doct = [r for r in raises if any(g.endswith('not in _DOCTYPES') for g in r[2])]
+    rets = [r for r in hv.rows if r[0] == 'return']
+    ok = len(r_decl) == 1 and len(r_doct) == 1 and len(rets) == 1 and rets[0][1].startswith('_DOCTYPES[') \
+        and any(g.endswith('== _XMLDECL') for g in rets[0][2]) and any(g.endswith(' in _DOCTYPES') and ' not in ' not in g for g in rets[0][2])
+    if not ok:
+        res.find(key, hv.loc(), f'_read_header no longer rejects a missing/other XML declaration and an unknown DOCTYPE with LMFError and '
+                                f'returns the version of the DOCTYPE: {hv.describe(("raise", "return"))}')
+    qv = view(ctx, 'lmf', '_quick_scan')
     key = 'load-uses-header-version'
-    res.inst(key, lmf.loc(qs.node), 'version = _read_header(fh)')
-    if 'version = _read_header(fh)' not in norm(qs.node):
-        res.find(key, lmf.loc(qs.node), '_quick_scan no longer takes the LMF version from _read_header')
+    res.inst(key, qv.loc(), 'version = _read_header(<file>)')
+    qr = [r for r in qv.rows if r[0] == 'return']
+    if len(qr) != 1 or not qr[0][1].startswith('(_read_header('):
+        res.find(key, qv.loc(), f'_quick_scan no longer takes the LMF version from _read_header: {[r[1][:60] for r in qr]}')
 
 
 def r2_reader_rejects(ctx, res):
     lmf = ctx.repo.mod('lmf')
     start = ctx.repo.func('lmf', '_make_parser.<locals>.start')
     mp = ctx.repo.func('lmf', '_make_parser')
+    from ..speccheck import view
+    import re as _re
+    sv = view(ctx, 'lmf', '_make_parser.<locals>.start')
+    K = '_VALID_ELEMS[version].get(name)'
     key = 'start-handler:store-guarded'
-    stores = [n for n in walk_no_nested(start.node) if isinstance(n, ast.Assign)
-              and any(isinstance(t, ast.Subscript) and norm(t) == 'parent[key]' for t in n.targets)]
-    res.inst(key, lmf.loc(start.node), f'{len(stores)} stores parent[key] = ...')
-    if len(stores) != 1:
-        res.find(key, lmf.loc(start.node), f'expected exactly one store `parent[key] = attrs` in the start handler, found {len(stores)}')
-    for st in stores:
-        # must be in the else branch of `elif key is None or key in parent: raise`
-        guard = None
-        for p in parents(st):
-            if isinstance(p, ast.If) and any(st is x for x in p.orelse):
-                guard = p
-                break
-            if isinstance(p, ast.If):
-                break
-        ok = False
-        if guard is not None:
-            t = guard.test
-            parts = sorted(norm(v) for v in t.values) if isinstance(t, ast.BoolOp) and isinstance(t.op, ast.Or) else [norm(t)]
-            raises = guard.body and isinstance(guard.body[-1], ast.Raise)
-            if parts == ['key in parent', 'key is None'] and raises:
-                ok = True
-        if not ok:
-            res.find(key, lmf.loc(st), 'the store `parent[key] = attrs` is not dominated by `key is not None and key not in parent` with a '
-                                       'raise on the other branch: an element unknown in the declared version, or a repeated single-valued '
-                                       'child, is accepted (the repeat silently overwrites the first)')
-    src = Frag(start.node)
+    stores = [r for r in sv.rows if r[0] == 'store' and _re.match(r'^(.+)\[' + _re.escape(K) + r'\] = attrs$', r[1])]
+    allst = [r for r in sv.rows if r[0] == 'store' and r[1].endswith('] = attrs')]
+    res.inst(key, sv.loc(), f'{[(r[1][:50], sorted(r[2])) for r in allst]}')
+    if len(allst) != 1:
+        res.find(key, sv.loc(), f'expected exactly one store `<parent>[key] = attrs` in the start handler, found {len(allst)}')
+    for r in allst:
+        m = _re.match(r'^(.+)\[(' + _re.escape(K) + r')\] = attrs$', r[1]) or _re.match(r'^(.+?)\[(.+)\] = attrs$', r[1])
+        P, k = m.group(1), m.group(2)
+        need = {f'{k} is not None', f'{k} not in {P}'}
+        rs = [x for x in sv.rows if x[0] == 'raise' and any(g == f'{k} is None or {k} in {P}' for g in x[2])]
+        if not need <= set(r[2]) or not rs:
+            res.find(key, sv.loc(r[4]), f'the store `{r[1][:60]}` is not dominated by `key is not None and key not in parent` with a raise on '
+                                        f'the other branch (guards {sorted(r[2])}): an element unknown in the declared version, or a repeated '
+                                        f'single-valued child, is accepted (the repeat silently overwrites the first)')
     key = 'start-handler:key-from-version-table'
-    res.inst(key, lmf.loc(start.node), 'key = ELEMS.get(name)')
-    if 'key = ELEMS.get(name)' not in src or 'ELEMS = _VALID_ELEMS[version]' not in norm(mp.node):
-        res.find(key, lmf.loc(start.node), 'element names are no longer looked up in the element table of the declared version')
+    res.inst(key, sv.loc(), K)
+    if not stores:
+        res.find(key, sv.loc(), f'element names are no longer looked up in the element table of the declared version ({K}): '
+                                f'{[r[1][:60] for r in allst]}')
     key = 'start-handler:list-elems'
-    res.inst(key, lmf.loc(mp.node), 'LIST_ELEMS = _LIST_ELEMS & set(ELEMS)')
-    if 'LIST_ELEMS = _LIST_ELEMS & set(ELEMS)' not in norm(mp.node) or 'if name in LIST_ELEMS' not in src:
-        res.find(key, lmf.loc(mp.node), 'list elements are no longer restricted to the elements valid in the declared version')
+    lists = [r for r in sv.rows if r[0] == 'call' and '.setdefault(' in r[1] and r[1].endswith('.append(attrs)')]
+    res.inst(key, sv.loc(), f'{[sorted(r[2]) for r in lists]}')
+    want = 'name in _LIST_ELEMS & set(_VALID_ELEMS[version])'
+    if len(lists) != 1 or want not in lists[0][2] or f'.setdefault({K}, [])' not in lists[0][1]:
+        res.find(key, sv.loc(), f'list elements are no longer restricted to the elements valid in the declared version (collected when '
+                                f'{[sorted(r[2]) for r in lists]}; expected `{want}`)')
+    cd = [r for r in sv.rows if r[0] == 'store' and r[1] == "attrs['text'] = ''"]
+    key = 'start-handler:cdata-elems'
+    res.inst(key, sv.loc(), f'{[sorted(r[2]) for r in cd]}')
+    if len(cd) != 1 or 'name in _CDATA_ELEMS & set(_VALID_ELEMS[version])' not in cd[0][2]:
+        res.find(key, sv.loc(), 'text elements are no longer restricted to the elements valid in the declared version')
     key = 'start-handler:unexpected-raises'
     un = ctx.repo.func('lmf', '_unexpected')
     res.inst(key, lmf.loc(un.node), '_unexpected builds an LMFError')
@@ -163,62 +171,88 @@ def r2_reader_rejects(ctx, res):
         res.find(key, lmf.relpath, 'LMFError is no longer a subclass of wn.Error')
 
 
-# model class -> list of (validator function, variable that holds the element)
+# model class -> list of (validator function, element expression in the effect summary, key of the list it is taken from or None)
+# `$1` is the element of the outer loop over the function's `elems` parameter, `$2` the element of an inner loop over one of
+# its lists; no local variable name is involved
 VALIDATED_BY = {
-    'Lexicon': [('_validate_lexicon', 'elem')],
-    'LexiconExtension': [('_validate_lexicon', 'elem')],
-    'Dependency': [('_validate_lexicon', 'dep'), ('_validate', 'ext')],
-    'LexicalEntry': [('_validate_entries', 'elem')],
-    'ExternalLexicalEntry': [('_validate_entries', 'elem')],
-    'Lemma': [('_validate_entries', 'lemma'), ('_validate_forms', 'elem')],
-    'Form': [('_validate_forms', 'elem')],
-    'ExternalForm': [('_validate_entries', 'form'), ('_validate_forms', 'elem')],
-    'Pronunciation': [('_validate_forms', 'pron')],
-    'Tag': [('_validate_forms', 'tag')],
-    'Sense': [('_validate_senses', 'elem')],
-    'ExternalSense': [('_validate_senses', 'elem')],
-    'Synset': [('_validate_synsets', 'elem')],
-    'ExternalSynset': [('_validate_synsets', 'elem')],
-    'Relation': [('_validate_senses', 'rel'), ('_validate_synsets', 'rel')],
-    'Example': [('_validate_senses', 'ex'), ('_validate_synsets', 'ex')],
-    'Count': [('_validate_senses', 'cnt')],
-    'Definition': [('_validate_synsets', 'defn')],
+    'Lexicon': [('_validate_lexicon', 'elem', None)],
+    'LexiconExtension': [('_validate_lexicon', 'elem', None)],
+    'Dependency': [('_validate_lexicon', '$1', 'requires'), ('_validate', "elem.get('extends')", None)],
+    'LexicalEntry': [('_validate_entries', '$1', 'elems')],
+    'ExternalLexicalEntry': [('_validate_entries', '$1', 'elems')],
+    'Lemma': [('_validate_entries', "$1.get('lemma')", 'elems'), ('_validate_forms', '$1', 'elems')],
+    'Form': [('_validate_forms', '$1', 'elems')],
+    'ExternalForm': [('_validate_entries', '$2', 'forms'), ('_validate_forms', '$1', 'elems')],
+    'Pronunciation': [('_validate_forms', '$2', 'pronunciations')],
+    'Tag': [('_validate_forms', '$2', 'tags')],
+    'Sense': [('_validate_senses', '$1', 'elems')],
+    'ExternalSense': [('_validate_senses', '$1', 'elems')],
+    'Synset': [('_validate_synsets', '$1', 'elems')],
+    'ExternalSynset': [('_validate_synsets', '$1', 'elems')],
+    'Relation': [('_validate_senses', '$2', 'relations'), ('_validate_synsets', '$2', 'relations')],
+    'Example': [('_validate_senses', '$2', 'examples'), ('_validate_synsets', '$2', 'examples')],
+    'Count': [('_validate_senses', '$2', 'counts')],
+    'Definition': [('_validate_synsets', '$2', 'definitions')],
     'ILIDefinition': [],
-    'SyntacticBehaviour': [('_validate_frames', 'elem')],
+    'SyntacticBehaviour': [('_validate_frames', '$1', 'elems')],
 }
 EACH_SITE = {'Relation', 'Example'}
 ELEMENT_OF = {'Relation': ['SenseRelation', 'SynsetRelation'], 'Dependency': ['Requires', 'Extends'], 'Lexicon': ['Lexicon'],
               'LexiconExtension': ['LexiconExtension']}
 
 
-def _guaranteed(f, var):
-    """keys the function guarantees on `var`: assert 'k' in var / for a in (...): assert a in var / var.setdefault('k') /
-    var['k'] = ... / assert var.get('k')."""
+def _guaranteed(ctx, fname, elem, listkey):
+    """keys the validator guarantees on the element: assert 'k' in E / for a in (...): assert a in E / E.setdefault('k') /
+    E['k'] = ... / assert E.get('k') - read off the effect summary (no variable names)."""
+    import re as _re
+    from ..speccheck import view
+    v = view(ctx, 'lmf', fname)
     out = set()
-    for n in walk_no_nested(f.node):
-        if isinstance(n, ast.Assert):
-            for c in ast.walk(n.test):
-                if isinstance(c, ast.Compare) and len(c.ops) == 1 and isinstance(c.ops[0], ast.In) and norm(c.comparators[0]) == var:
-                    if isinstance(c.left, ast.Constant):
-                        out.add(c.left.value)
-                    elif isinstance(c.left, ast.Name):
-                        for p in parents(n):
-                            if isinstance(p, ast.For) and norm(p.target) == c.left.id and isinstance(p.iter, (ast.Tuple, ast.List)):
-                                out |= {e.value for e in p.iter.elts if isinstance(e, ast.Constant)}
-                if isinstance(c, ast.Call) and isinstance(c.func, ast.Attribute) and c.func.attr == 'get' and norm(c.func.value) == var \
-                        and c.args and isinstance(c.args[0], ast.Constant) and isinstance(n.test, ast.BoolOp) and isinstance(n.test.op, ast.Or) \
-                        and n.test.values[-1] is c:
-                    out.add('?' + c.args[0].value)   # conditional (assert not external or id)
-            if isinstance(n.test, ast.Compare) and isinstance(n.test.ops[0], ast.IsNot) and norm(n.test.left) == var:
+    E = _re.escape(elem)
+
+    def in_scope(c):
+        if listkey is None:
+            return True
+        if not c:
+            return False
+        last = [x for x in c if x.startswith('for ')]
+        if not last:
+            return False
+        lk = last[-1]
+        if elem == '$1' or elem.startswith('$1.'):
+            return len(last) >= 1 and (last[0] == f'for {listkey}' or f".get('{listkey}'" in last[0]) and (elem != '$1' or True)
+        return f".get('{listkey}'" in lk
+    for k, t, g, c, e in v.rows:
+        if elem.startswith('$2') and len([x for x in c if x.startswith('for ')]) < 2:
+            continue
+        if elem.startswith('$1') and listkey is not None and len([x for x in c if x.startswith('for ')]) > 1 and elem == '$1':
+            # effects about the inner element mention $2; effects about $1 inside an inner loop still count
+            pass
+        if not in_scope(c):
+            continue
+        if k == 'assert':
+            m = _re.match(r"^'(\w+)' in " + E + '$', t)
+            if m:
+                out.add(m.group(1))
+            if t == f'{elem} is not None':
                 out.add('__exists__')
-        if isinstance(n, ast.Call) and isinstance(n.func, ast.Attribute) and n.func.attr == 'setdefault' and norm(n.func.value) == var \
-                and n.args and isinstance(n.args[0], ast.Constant):
-            out.add(n.args[0].value)
-        if isinstance(n, ast.Assign):
-            for t in n.targets:
-                if isinstance(t, ast.Subscript) and norm(t.value) == var and isinstance(t.slice, ast.Constant):
-                    # cnt['value'] = int(cnt.pop('text')) is preceded by assert 'text' in cnt
-                    out.add(t.slice.value)
+            m = _re.match('^not ' + E + r"\.get\('external'\) or " + E + r"\.get\('(\w+)'\)$", t)
+            if m:
+                out.add('?' + m.group(1))
+            m = _re.match(r'^\$(\d) in ' + E + '$', t)
+            if m:
+                fors = [x for x in c if x.startswith('for ')]
+                idx = int(m.group(1)) - 1
+                if idx < len(fors):
+                    out |= set(_re.findall(r"'(\w+)'", fors[idx]))
+        elif k == 'call':
+            m = _re.match('^' + E + r"\.setdefault\('(\w+)'", t)
+            if m:
+                out.add(m.group(1))
+        elif k == 'store':
+            m = _re.match('^' + E + r"\['(\w+)'\] = ", t)
+            if m:
+                out.add(m.group(1))
     return out
 
 
@@ -241,9 +275,8 @@ def r3_required_attributes(ctx, res):
         req = {k for k, (a, r) in model.classes[cls].items() if r}
         guaranteed = set(provided)
         per_site = []
-        for fname, var in sites:
-            f = ctx.repo.func('lmf', fname)
-            per_site.append(_guaranteed(f, var))
+        for fname, var, lk in sites:
+            per_site.append(_guaranteed(ctx, fname, var, lk))
         if cls in EACH_SITE and per_site:
             # the element kind occurs in several places (sense and synset relations, ...): every place must check it
             common = set.intersection(*per_site)
@@ -252,7 +285,7 @@ def r3_required_attributes(ctx, res):
             for g in per_site:
                 guaranteed |= g
         # Lemma is asserted non-None for non-external entries
-        if cls == 'LexicalEntry' and '__exists__' in _guaranteed(ctx.repo.func('lmf', '_validate_entries'), 'lemma'):
+        if cls == 'LexicalEntry' and '__exists__' in _guaranteed(ctx, '_validate_entries', "$1.get('lemma')", 'elems'):
             guaranteed.add('lemma')
         if cls == 'LexiconExtension':
             guaranteed.add('extends')   # _validate dispatches on it
@@ -404,6 +437,12 @@ def _has_unescape(ctx, f, depth=0):
             nm = norm(n.func).split('.')[-1]
             if 'unescape' in nm:
                 return True
+    # ... or in a module-level helper the function calls (the decoder may live outside the function)
+    if depth < 2:
+        for call, cal in ctx.cg.callees(f):
+            for c in cal:
+                if c.module is f.module and c is not f and _has_unescape(ctx, c, depth + 1):
+                    return True
     return False
 
 
